@@ -1,7 +1,12 @@
 ; Spec functions for the CertPool contracts (x509/cert_pool.go).
-; keystr(s, n): the Go string holding the first n bytes of byte sequence s - the map key
-; string(b) of a byte slice b with len(b) == n (same canonical form as govc's own
-; []byte -> string conversion: bytes beyond the length are zero).
+; keystr(s, n): the Go string holding the first n bytes of byte sequence s, i.e. the map key
+; string(b) of a byte slice b with len(b) == n, in the canonical form of govc's own
+; []byte -> string conversion (bytes beyond the length are zero).
+; It is introduced by its two defining equations instead of a define-fun with an array
+; lambda  (mkStr n (lambda ((i (_ BitVec 64))) (ite (bvult i n) (select h (elem s i)) #x00)))
+; because z3 is an order of magnitude slower on the lambda form; that term is a witness
+; that the two axioms below are consistent (they are a definitional extension).
 ;; spec keystr (s seq, n int) string
-(define-fun keystr ((h (Array Loc (_ BitVec 8))) (s Slice) (n (_ BitVec 64))) Str (mkStr n (lambda ((i (_ BitVec 64))) (ite (bvult i n) (select h (elem s i)) #x00))))
-(define-fun keystr_a ((a (Array (_ BitVec 64) (_ BitVec 8))) (n (_ BitVec 64))) Str (mkStr n (lambda ((i (_ BitVec 64))) (ite (bvult i n) (select a i) #x00))))
+(declare-fun keystr ((Array Loc (_ BitVec 8)) Slice (_ BitVec 64)) Str)
+(assert (forall ((h (Array Loc (_ BitVec 8))) (s Slice) (n (_ BitVec 64))) (! (= (str_len (keystr h s n)) n) :pattern ((keystr h s n)))))
+(assert (forall ((h (Array Loc (_ BitVec 8))) (s Slice) (n (_ BitVec 64)) (i (_ BitVec 64))) (! (= (select (str_arr (keystr h s n)) i) (ite (bvult i n) (select h (elem s i)) #x00)) :pattern ((select (str_arr (keystr h s n)) i)))))
